@@ -537,7 +537,13 @@ func genC06(ctx *Ctx) {
 			"DELETE FROM t WHERE " + rep("(", d-1) + "k IN (" + rep("(", 1) + "1" + rep(")", 1) + ")" + rep(")", d-1),
 			"BEGIN BATCH UPDATE t SET a = " + rep("[", d) + "1" + rep("]", d) + " WHERE k = 1 INSERT INTO t (a) VALUES (" + rep("[", d) + "now()" + rep("]", d) + ") APPLY BATCH",
 		} {
-			emitClass(q, 2, 0, 2, "nesting-depth")
+			// beyond the parser's documented limit (256 levels) a statement is refused, i.e. not idempotent; within it no
+			// ground truth is attached here (now() appears in the batch form)
+			spec := 2
+			if d > 258 {
+				spec = 0
+			}
+			emitClass(q, spec, 0, 2, "nesting-depth")
 		}
 	}
 	// statements that are not CQL at all although each piece is: never idempotent
